@@ -15,7 +15,9 @@ from sqlalchemy.pool import StaticPool
 import pydiverse.transform as pdt
 from sim.seams import EngineFaults
 
-TABLES = {"A": 1, "B": 2, "D": 3}
+# "A_1": a real table whose name looks like the alias the SQL back end gives to the second
+# occurrence of "A" in a query
+TABLES = {"A": 1, "B": 2, "D": 3, "A_1": 4}
 OFF = 10**7  # one tag unit
 
 # name -> (column number, kind)
@@ -34,7 +36,7 @@ COLS = {
     "k": dict(c=8, mod=3, shared=True, nullable=False, str=False),
     "kn": dict(c=9, mod=3, shared=True, nullable=True, str=False),
 }
-SPECIFIC = {"A": "a1", "B": "b1", "D": "d1"}  # column number 6
+SPECIFIC = {"A": "a1", "B": "b1", "D": "d1", "A_1": "e1"}  # column number 6
 COL_ORDER = ["id", "u", "k", "kn", "x", "y", "g", "n", "s"]
 
 
